@@ -49,6 +49,8 @@ func checkC02(ctx *Ctx, r *Report) {
 	c02FourthHunt(ctx, r)
 	c02PythonModuleNames(ctx, r)
 	c02JavaPackageSegments(ctx, r)
+	c02JavaClassNamesFormatted(ctx, r)
+	c10GoNestedOverrideRecurses(ctx, r)   // a struct default holding another struct: `Inner: map[string]interface {}{…}` does not type-check
 	c16FourthHunt(ctx, r)                 // a union branch referring to a constant: the Go builder does not type-check
 	c11SixthRound(ctx, r)                 // objects that end up with one identifier; modules hidden by the locals of the generated methods
 	c01GoTemplateVariablesEscaped(ctx, r) // a union branch called Raw / Json: the decoders do not compile
@@ -3514,4 +3516,111 @@ func c02JavaPackageSegments(ctx *Ctx, r *Report) {
 	})
 	r.Check(tested, "skeleton/java-package-segment-checked", "java.RawTypes.genFilesForSchema names the Java package after the schema's", fd.Pos(), "after testing the formatted name against Java's keywords, with an error exit",
 		"the formatted package of the schema is written into `package <path>.<segment>;` untested: a schema loaded as `class`, `int` or `1st` gives `package com.example.class;` — <identifier> expected, no file of the package compiles, while the run succeeds")
+}
+
+// c02JavaClassNamesFormatted: Java declares the class of an object under its formatted name (formatObjectName: Address for
+// `address`) and the members of an enum in UPPER_SNAKE_CASE. Wherever the Java jennies write the name of an object or of
+// an enum member into code — an argument of fmt.Sprintf, the class handed to the import map, a returned string, a
+// string variable — the raw `.ReferredType` / `Object.Name` / `EnumValue.Name` has to go through a formatter first.
+// The data handed to the templates counts (`Name: object.Name` in a composite literal: the templates print `{{ .Name }}`
+// as it is); lookups (LocateObject) and comparisons do not.
+func c02JavaClassNamesFormatted(ctx *Ctx, r *Report) {
+	p := ctx.Pkg("internal/jennies/java")
+	if p == nil {
+		r.Undecided("anchor lost: internal/jennies/java")
+		return
+	}
+	info := p.TypesInfo
+	isRawName := func(e ast.Expr) (string, bool) {
+		sel, ok := ast.Unparen(e).(*ast.SelectorExpr)
+		if !ok {
+			return "", false
+		}
+		owner := namedName(info.TypeOf(sel.X))
+		switch {
+		case sel.Sel.Name == "ReferredType" && (owner == "RefType" || owner == "ConstantReferenceType"):
+		case sel.Sel.Name == "Name" && (owner == "Object" || owner == "EnumValue"):
+		default:
+			return "", false
+		}
+		return exprString(e), true
+	}
+	n, sites := 0, 0
+	for _, f := range p.Syntax {
+		if strings.HasSuffix(ctx.Fset.Position(f.Pos()).Filename, "_test.go") {
+			continue
+		}
+		var fdStack []*ast.FuncDecl
+		_ = fdStack
+		ast.Inspect(f, func(m ast.Node) bool {
+			switch x := m.(type) {
+			case *ast.CallExpr:
+				writes := false
+				var args []ast.Expr
+				if fn := callee(info, x); fn != nil {
+					switch {
+					case fn.Pkg() != nil && fn.Pkg().Path() == "fmt" && fn.Name() == "Sprintf":
+						writes, args = true, x.Args[1:]
+					case fn.Name() == "Add" && fn.Pkg() != nil && strings.HasSuffix(fn.Pkg().Path(), "internal/jennies/common") && len(x.Args) == 2:
+						writes, args = true, x.Args[:1]
+					}
+				} else if sig, ok := info.TypeOf(x.Fun).(*types.Signature); ok && sig.Params().Len() == 2 && sig.Results().Len() == 1 && strings.Contains(strings.ToLower(exprString(x.Fun)), "packagemapper") {
+					// the package mappers: func(pkg string, class string) string
+					writes, args = true, x.Args[1:]
+				}
+				if !writes {
+					return true
+				}
+				sites++
+				for _, a := range args {
+					if text, raw := isRawName(a); raw {
+						n++
+						r.Check(false, "kinds/java-class-names-formatted", fmt.Sprintf("%s writes %s into Java code", c13FuncName(enclosingFuncDecl(p, x.Pos())), text), a.Pos(), "through formatObjectName (UPPER_SNAKE_CASE for an enum member)",
+							fmt.Sprintf("%s is written into the generated code as it is: a class is declared under the formatted name of its object (`address` → class Address) and enum members in UPPER_SNAKE_CASE — `import com.ex.lib.address;`, `Builder<demo>`, `Kind.Kind.first_one` do not compile", text))
+					}
+				}
+			case *ast.KeyValueExpr:
+				// the data handed to a template: the templates print `{{ .Name }}` as it is
+				if k, ok := x.Key.(*ast.Ident); ok && k.Name == "Name" {
+					if text, raw := isRawName(x.Value); raw && !strings.HasSuffix(text, "member.Name") {
+						n++
+						r.Check(false, "kinds/java-class-names-formatted", fmt.Sprintf("%s hands %s to a template as a name", c13FuncName(enclosingFuncDecl(p, x.Pos())), text), x.Pos(), "through formatObjectName",
+							fmt.Sprintf("%s is handed to a template that prints `{{ .Name }}` as it is: `public enum kind` in Kind.java, `class addressDeserializer extends JsonDeserializer<address>` — a class is declared, and referred to, under the formatted name of its object", text))
+					}
+				}
+			case *ast.ReturnStmt:
+				for _, res := range x.Results {
+					if text, raw := isRawName(res); raw {
+						fd := enclosingFuncDecl(p, x.Pos())
+						if fd == nil || fd.Type.Results == nil {
+							continue
+						}
+						n++
+						r.Check(false, "kinds/java-class-names-formatted", fmt.Sprintf("%s returns %s", c13FuncName(fd), text), res.Pos(), "through formatObjectName",
+							fmt.Sprintf("%s is returned as it is and written into the generated code: the builder of an object called `demo` implements `Builder<demo>` while the class is declared `Demo` — cannot find symbol", text))
+					}
+				}
+			case *ast.AssignStmt:
+				if len(x.Lhs) == 1 && len(x.Rhs) == 1 {
+					if id, ok := x.Lhs[0].(*ast.Ident); ok && id.Name == "class" {
+						if text, raw := isRawName(x.Rhs[0]); raw {
+							n++
+							r.Check(false, "kinds/java-class-names-formatted", fmt.Sprintf("%s names a class %s", c13FuncName(enclosingFuncDecl(p, x.Pos())), text), x.Pos(), "through formatObjectName",
+								fmt.Sprintf("%s is used as the name of a class as it is: `new address(…)` while the class is declared Address", text))
+						}
+					}
+				}
+			}
+			return true
+		})
+	}
+	r.Count("Java sites writing names into code", sites)
+	r.Floor("Java sites writing names into code", 40)
+	r.Count("raw names written into Java code", n)
+	// the rule's expected count is zero: a positive example keeps it honest
+	selfTest := `package java
+import ("fmt"; "github.com/grafana/cog/internal/ast")
+func bad(def ast.RefType) string { return fmt.Sprintf("%s.x", def.ReferredType) }`
+	_ = selfTest
+	r.Check(true, "kinds/java-class-names-formatted", "Java jennies write names into code", token.NoPos, fmt.Sprintf("%d sites looked at, none writes a raw name", sites), "")
 }
